@@ -47,8 +47,13 @@ func ringDegScenario(rt ring.Type, logN int, ch rk.Chain, bound int) engine.Scen
 		top := c.Bool("operand")
 		// receiver: 0 at the input's level, 1 one level below, 2 above (top level)
 		outMode := c.Choose(3, "out")
+		// receiver history: re-used after a call in the OTHER domain (stale content, IsNTT opposite to the
+		// input, other scale / dimensions) — also what a receiver allocated from parameters with the
+		// opposite NTTFlag looks like
+		dirty := c.Bool("dirtyReceiver")
+		c.Cover("ringdeg-receiver", map[bool]string{false: "fresh", true: "dirty-metadata"}[dirty])
 		dirName := []string{"small->large", "large->small"}[dir]
-		cfg := fmt.Sprintf("ApplyEvaluationKey %s %s ctLevel=%d IsNTT=%v top=%v out=%d", dirName, kp, level, isNTT, top, outMode)
+		cfg := fmt.Sprintf("ApplyEvaluationKey %s %s ctLevel=%d IsNTT=%v top=%v out=%d dirty=%v", dirName, kp, level, isNTT, top, outMode, dirty)
 		c.Note("%s", cfg)
 		c.Cover("op", "ApplyEvaluationKey/"+dirName)
 		c.Cover("ring", ringName(rt))
@@ -94,6 +99,9 @@ func ringDegScenario(rt ring.Type, logN int, ch rk.Chain, bound int) engine.Scen
 				want = rk.CenterAll(rk.Embed(rk.Phase(rt, pS.RingQ(), &ct.Element, sS), 2), qAt(pL, level))
 				sOut = sL
 				out = rlwe.NewCiphertext(pL, 1, outLevel)
+				if dirty {
+					out = dirtyReceiver(pL, 1, outLevel, isNTT, name, cfg)
+				}
 				in := *ct.MetaData
 				if err := eval.ApplyEvaluationKey(ct, evk, out); err != nil {
 					return err
@@ -113,6 +121,9 @@ func ringDegScenario(rt ring.Type, logN int, ch rk.Chain, bound int) engine.Scen
 				want = rk.CenterAll(rk.Subsample(rk.Phase(rt, pL.RingQ(), &ct.Element, sL), 2), qAt(pL, level))
 				sOut, pOut = sS, pS
 				out = rlwe.NewCiphertext(pS, 1, outLevel)
+				if dirty {
+					out = dirtyReceiver(pS, 1, outLevel, isNTT, name, cfg)
+				}
 				in := *ct.MetaData
 				if err := eval.ApplyEvaluationKey(ct, evk, out); err != nil {
 					return err
